@@ -106,6 +106,10 @@ DOC_SHAPES = [
     ("/**\n\t * mixed {n}\n  * second\n */", "mixed {n}\nsecond"),
     ("/**\n\tplain {n}\n    more\n */", "plain {n}\n   more"),
     ("/**\n  * sp {n}\n\t * tab\n\t\t* deeper\n */", "sp {n}\ntab\ndeeper"),
+    # blocks of several lines without any text: the docstring is empty
+    ("/**\n{i} */", ""),
+    ("/**\n\n  \n*/", ""),
+    ("/** \n{i}\n{i} */", ""),
 ]
 
 
@@ -128,7 +132,7 @@ GAPS = [
     [("nl",), ("doc", 0), ("sp", " "), ("bc", "/* c */"), ("nl",)], [("doc", 0), ("nl",), ("lc", "// c"), ("nl",)],
     [("sp", "\r"), ("nl",)], [("sp", "\t")], [("doc", 4), ("nl",)], [("bc", "/* a\n b */"), ("nl",)], [("doc", 2), ("nl",)],
     [("doc", 0), ("bc", "/*\n*/")],
-    [("doc", 7), ("nl",)], [("doc", 8), ("nl",)],
+    [("doc", 7), ("nl",)], [("doc", 8), ("nl",)], [("doc", 10), ("nl",)],
 ]
 
 
